@@ -2,7 +2,7 @@
    printed by the audit step of bin/check (Print Assumptions per theorem). *)
 From Coq Require Import ZArith Bool List.
 From Coq Require Floats.SpecFloat.
-From SV Require Import Common.GoInt C10.Model C10.Spec C10.ProofsInt C10.ProofsRange C10.ProofsSlice C10.ProofsFloat C10.ProofsText C10.SpecRound C10.ProofsRound.
+From SV Require Import Common.GoInt C10.Model C10.Spec C10.ProofsInt C10.ProofsRange C10.ProofsSlice C10.ProofsFloat C10.ProofsText C10.SpecRound C10.ProofsRound C10.SpecFloatArith C10.ModelFloatDiv C10.ProofsFloatArith C10.ProofsFloatDiv.
 Import ListNotations.
 Import Floats.SpecFloat.
 Open Scope Z_scope.
@@ -335,6 +335,70 @@ Example int_to_float_rounding_examples :
   (overflow_threshold <=? Z.abs (2 ^ 53 + 3)) = false /\ (overflow_threshold <=? Z.abs (- 2 ^ 1024)) = true /\
   scaled_val (S754_finite false 4503599627370498 1) = Some ((2 ^ 53 + 4) * scale).
 Proof. vm_compute. repeat split. Qed.
+
+(* Float `%` and `//` (eval.go Binary, value.go Float.Mod / floor; model in
+   ModelFloatDiv.v; math.Mod and math.Floor are exact library oracles, x / y and
+   z + y are SpecFloat's SFdiv / SFadd), for ALL valid finite x and finite
+   y <> 0, values taken exactly on the 2^-1074 grid (SpecFloatArith.v):
+   1. x % y: Float.Mod returns the binary64 value nearest (ties to even) to the
+      exact remainder of floored division X mod Y -- its fmod-plus-sign-correction
+      is right, the only inexactness is the final z + y, and when the signs agree
+      or the truncated remainder is zero the result is the exact X mod Y; the
+      result lies between 0 and y inclusive (it has the divisor's sign or is zero;
+      |r| = |y| can only arise by rounding, e.g. -5e-324 % 1.0 == 1.0);
+   2. x // y is floor(q) EXACTLY, where q = x / y is the binary64 value nearest
+      (ties to even) to the exact rational quotient -- doc/spec.md: "x // y yields
+      floor(x / y)" -- or q itself when q overflowed to an infinity;
+      (this includes the proof that SpecFloat's SFdiv and SFadd round correctly);
+   3. a zero divisor is an error for both;
+   4. the int/float mixes convert the int with finiteFloat first (nearest even by
+      int_to_float_nearest_even; error exactly from the overflow threshold on; a
+      zero int divisor is an error) and then behave as 1-3. *)
+Theorem float_floor_div_mod :
+  (forall x y X Y, valid_float x = true -> valid_float y = true ->
+     scaled_val x = Some X -> scaled_val y = Some Y -> Y <> 0 ->
+     Binary_ff_mod x y = Ok (Float_Mod x y) /\
+     rounds_grid_to_nearest_even (spec_grid_mod X Y) (Float_Mod x y) /\
+     (negb (Bool.eqb (X <? 0) (Y <? 0)) && negb (Z.rem X Y =? 0) = false ->
+        scaled_val (Float_Mod x y) = Some (spec_grid_mod X Y)) /\
+     (exists v, valid_float (Float_Mod x y) = true /\ scaled_val (Float_Mod x y) = Some v /\
+                (0 < Y -> 0 <= v <= Y) /\ (Y < 0 -> Y <= v <= 0))) /\
+  (forall x y X Y, valid_float x = true -> valid_float y = true ->
+     scaled_val x = Some X -> scaled_val y = Some Y -> Y <> 0 ->
+     let q := SFdiv 53 1024 x y in
+     Binary_ff_floordiv x y = Ok (Float_floor q) /\
+     rounds_ratio_to_nearest_even (quotient_num X Y) (quotient_den Y) q /\
+     (forall Q, scaled_val q = Some Q ->
+        valid_float (Float_floor q) = true /\ scaled_val (Float_floor q) = Some (spec_grid_floor Q)) /\
+     (forall s, q = S754_infinity s -> Float_floor q = S754_infinity s)) /\
+  (forall x y, float_is_zero y = true -> Binary_ff_mod x y = Err /\ Binary_ff_floordiv x y = Err) /\
+  (forall I, impl_ok I -> forall (i : T I) (f : float), canonical I i = true ->
+     let ovf := overflow_threshold <=? Z.abs (value I i) in
+     Binary_if_floordiv I i f = (if ovf then Err else Binary_ff_floordiv (Int_Float I i) f) /\
+     Binary_if_mod I i f = (if ovf then Err else Binary_ff_mod (Int_Float I i) f) /\
+     Binary_fi_floordiv I f i = (if ovf then Err else Binary_ff_floordiv f (Int_Float I i)) /\
+     Binary_fi_mod I f i = (if value I i =? 0 then Err else if ovf then Err else Ok (Float_Mod f (Int_Float I i)))).
+Proof. exact float_floor_div_mod_lemma. Qed.
+
+(* Non-vacuity: -7.0 % 3.0 == 2.0, 7.0 % -3.0 == -2.0, 1.0 % 0.1 == 0.09999999999999995,
+   -5e-324 % 1.0 == 1.0 (rounded), 1.0 // 0.1 == 10.0 (floor of the rounded quotient),
+   -7.0 // 2.0 == -4.0, division by -0.0 fails, 7 % -3.0 == -2.0, 1.0 % 2^1024 fails. *)
+Example float_floor_div_mod_examples :
+  let m7 := S754_finite true 7881299347898368 (-50) in let p3 := S754_finite false 6755399441055744 (-51) in
+  let p7 := S754_finite false 7881299347898368 (-50) in let m3 := S754_finite true 6755399441055744 (-51) in
+  let one := S754_finite false 4503599627370496 (-52) in let two := S754_finite false 4503599627370496 (-51) in
+  let tenth := S754_finite false 7205759403792794 (-56) in let tiny := S754_finite true 1 (-1074) in
+  valid_float m7 = true /\ valid_float p3 = true /\ valid_float tenth = true /\ valid_float tiny = true /\
+  scaled_val m7 = Some (-7 * scale) /\ scaled_val p3 = Some (3 * scale) /\ 3 * scale <> 0 /\
+  Float_Mod m7 p3 = two /\ Float_Mod p7 m3 = S754_finite true 4503599627370496 (-51) /\
+  Float_Mod one tenth = S754_finite false 7205759403792790 (-56) /\
+  Float_Mod tiny one = one /\
+  Binary_ff_floordiv one tenth = Ok (S754_finite false 5629499534213120 (-49)) /\
+  Binary_ff_floordiv m7 two = Ok (S754_finite true 4503599627370496 (-50)) /\
+  Binary_ff_mod one (S754_zero true) = Err /\
+  Binary_if_mod union_impl (Small 7) m3 = Ok (S754_finite true 4503599627370496 (-51)) /\
+  Binary_fi_mod union_impl one (Big (2 ^ 1024)) = Err /\ Binary_fi_floordiv union_impl p7 (Small 0) = Err.
+Proof. vm_compute. repeat split; discriminate. Qed.
 
 (* ------------------------------------------------------------------ text *)
 
